@@ -5,7 +5,11 @@ from ..framework import canon
 PROP = "C02"
 LEAN_TARGETS = ["Eliot.Properties.C02"]
 AUDIT = "Eliot/Audit/C02.lean"
-SKELETON_TARGETS = {"Sys.C02.skeleton_E6_order": "Eliot.Properties.C02Skel"}
+TL_THEOREMS = ["Sys.C02.TL.child_eq", "Sys.C02.TL.next_sibling_eq", "Sys.C02.TL.parent_eq", "Sys.C02.TL.is_sibling_of_eq",
+               "Sys.C02.TL.nextTaskLevel_refines", "Sys.C02.TL.model_nextLevel_is_translated", "Sys.C02.TL.positions_one_to_n", "Sys.C02.TL.no_writes_elsewhere"]
+SKELETON_TARGETS = {"Sys.C02.skeleton_E6_order": "Eliot.Properties.C02Skel",
+                    # theorems about the statement-by-statement *translation* of TaskLevel / Action._nextTaskLevel (extractor E10)
+                    "Sys.C02.TL.translated_position_arithmetic": ("Eliot.Properties.C02TL", "Eliot/Audit/C02TL.lean", TL_THEOREMS)}
 THEOREMS = ["Sys.C02.inv_preserved", "Sys.C02.reachable_inv", "Sys.C02.positions_contiguous", "Sys.C02.levels_unique",
             "Sys.C02.actions_unique", "Sys.C02.child_extends_parent", "Sys.C02.reserved_position_unique", "Sys.C02.message_at_slot",
             "Sys.C02.offered_places_unique", "Sys.C02.offered_at_handed_out_places", "Sys.C02.buffered_at_handed_out_places"]
